@@ -313,6 +313,8 @@ def check(src, rep):
     if okc:
         rep.ok("R6", "close()", "sets the closing event first, then closes the current transport if there is one")
     _loss_signal(rep, M, src)
+    from sa.cross import include
+    include(rep, src, "C18", {"R4"}, "R5", "the loss bookkeeping the loop runs after every loss is well-formed (an exception there ends connect_loop and with it all reconnecting)")
 
 
 def _loss_signal(rep, M, src):
